@@ -119,6 +119,9 @@ CASES = {
     "ice-binding-yield-spaced": (lambda: base_request(files=["ice.naunet"], formats=["naunet"], elements=["H", "C", "O"], pseudo_elements=["CR"], binding={"#CO": 1234.5, "#H": 500.0}, yields={"#CO": 0.002}, grain_model="hh93", srcdir=None, _ice=True), ["dense"], "spaced"),
     "replacement+yield-only": (lambda: base_request(files=["up.ucl"], formats=["uclchem"], elements=["E", "H", "HE", "C", "O", "MG", "SI"], pseudo_elements=["CR", "CRP", "PHOTON", "CRPHOT"],
                                                  replacement={"E": "e", "HE": "He", "MG": "Mg", "SI": "Si"}, yields={"#MG": 0.03, "#SIO": 0.002, "#CO": 0.0027}, binding={"#CO": 855.0}, grain_model="rr07x", _ucl=True), ["dense"], "plain"),
+    # self-shielding tables, with blanks around the key : value separator (`naunet example` itself writes 'CO: VB88Table')
+    "shielding-spaced": (lambda: base_request(files=["ice.naunet"], formats=["naunet"], elements=["H", "C", "O"], pseudo_elements=["CR"], grain_model="hh93", shielding={"CO": "VB88Table", "H2": "L96Table"}, _ice=True), ["dense"], "spaced"),
+    "shielding-plain": (lambda: base_request(files=["ice.naunet"], formats=["naunet"], elements=["H", "C", "O"], pseudo_elements=["CR"], grain_model="hh93", shielding={"CO": "V09Table"}, _ice=True), ["dense"], "plain"),
     "symbols": (lambda: base_request(files=["ice.naunet"], formats=["naunet"], elements=["H", "C", "O"], pseudo_elements=["CR"], grain_model="hh93", bulk_prefix="%", _ice=True), ["dense"], "plain"),
 }
 THOROUGH = {
